@@ -315,10 +315,38 @@ func (w *world) forceClose(e *tdrpc.Engine) {
 	w.closed = true
 }
 
+// ack delivers a msgs_ack batch that contains c's id, possibly surrounded by
+// ids of unknown or other requests (as a server's batched acknowledgement is).
 func (w *world) ack(e *tdrpc.Engine, c *callRec, why string) {
-	c.ackBegin = append(c.ackBegin, mark{simrt.Ev("ack-begin", "id=%d %s", c.id, why), simrt.Now()})
-	e.NotifyAcks([]int64{c.id})
-	c.ackDone = append(c.ackDone, mark{simrt.Ev("ack-done", "id=%d", c.id), simrt.Now()})
+	tape := simrt.S.Tape
+	var ids []int64
+	var recs []*callRec
+	add := func(pos int) {
+		for k := tape.Choose(simrt.Net, 3); k > 0; k-- {
+			if tape.Coin(simrt.Net, 1, 2) {
+				ids = append(ids, int64(900+pos*10+k)) // nobody waits for this one
+				continue
+			}
+			o := w.order[tape.Choose(simrt.Net, len(w.order))]
+			if o != c {
+				ids = append(ids, o.id)
+				recs = append(recs, o)
+			}
+		}
+	}
+	add(0)
+	ids = append(ids, c.id)
+	recs = append(recs, c)
+	add(1)
+	seq, t := simrt.Ev("ack-begin", "id=%d batch=%v %s", c.id, ids, why), simrt.Now()
+	for _, r := range recs {
+		r.ackBegin = append(r.ackBegin, mark{seq, t})
+	}
+	e.NotifyAcks(ids)
+	seq, t = simrt.Ev("ack-done", "id=%d", c.id), simrt.Now()
+	for _, r := range recs {
+		r.ackDone = append(r.ackDone, mark{seq, t})
+	}
 }
 
 func (w *world) result(e *tdrpc.Engine, c *callRec, why string) {
@@ -442,8 +470,12 @@ func (w *world) judge(o *simrt.Outcome) {
 		return
 	}
 	if o.Panic != "" {
-		o.HarnessErr = "panic in world rpc task " + o.PanicTask + ": " + o.Panic
-		return
+		if !o.PanicInRepo() {
+			o.HarnessErr = "panic in world rpc task " + o.PanicTask + ": " + o.Panic
+			return
+		}
+		// the engine itself panicked while completing/cancelling a call
+		o.AddViolation("C24", "C24.engine-panic", "engine-panic", "rpc engine panicked in task %s: %s", o.PanicTask, o.PanicLine())
 	}
 	for _, c := range w.order {
 		w.judgeC24(o, c)
